@@ -311,6 +311,11 @@ def misc(wd, rng, page_size=512, rows=300, tag="misc"):
     for n in range(20):
         c.execute("INSERT INTO uc VALUES(?,?,?,?,?)", ("upper%d" % n, "lower%d" % n, n, -n, n % 3))
         c.execute("INSERT INTO ucw VALUES(?,?,?)", ("U%d" % (n % 5), "l%d" % n, n))
+    # a primary key naming a column twice with different collations: both occurrences are stored
+    c.execute("CREATE TABLE dk(a TEXT, b, c, d, PRIMARY KEY(a COLLATE nocase, b, a COLLATE binary)) WITHOUT ROWID")
+    c.execute("CREATE INDEX dk_c ON dk(c)")
+    for n in range(30):
+        c.execute("INSERT OR IGNORE INTO dk VALUES(?,?,?,?)", (rng.choice(["k", "K", "kk", "Kk"]) + str(n % 4), n % 6, "c%d" % (n % 5), n))
     c.execute("BEGIN")
     for n in range(rows):
         c.execute("INSERT INTO Mc VALUES(?,?,?,?,?)", (n * 5 - 300, rng.choice(WORDS) + str(n % 9), rng.choice([float(n % 17), n / 4.0, None, 2.0 ** 53]),
@@ -319,6 +324,13 @@ def misc(wd, rng, page_size=512, rows=300, tag="misc"):
         c.execute("INSERT OR IGNORE INTO tp VALUES(?,?)", (rng.choice(WORDS) + str(n % 13), n))
         c.execute("INSERT OR IGNORE INTO tn VALUES(?,?)", (rng.choice(WORDS) + str(n % 13), n))
     c.execute("COMMIT")
+    # a rowid table's PRIMARY KEY column may hold NULL, any number of times; zero-length values are keys too
+    for n in range(4):
+        c.execute("INSERT INTO tp VALUES(NULL, ?)", ("null%d" % n,))
+    c.execute("INSERT INTO tp VALUES('', 'empty text')")
+    c.execute("INSERT INTO tp VALUES(x'', 'empty blob')")
+    c.execute("INSERT INTO tn VALUES('', 'empty text')")
+    c.execute("INSERT INTO tn VALUES(x'', 'empty blob')")
     c.execute("ALTER TABLE Mc ADD COLUMN late TEXT DEFAULT 'x'")
     c.execute("ALTER TABLE Wc ADD COLUMN late2 DEFAULT 12")
     c.execute("INSERT INTO Mc VALUES(100001, 'tail', 1.5, 2, 'w', 'given')")
@@ -333,6 +345,8 @@ def misc(wd, rng, page_size=512, rows=300, tag="misc"):
     db.tables["shadow"] = dict(kind="rowid", cols=["oid", "rowid", "_rowid_", "v"])
     db.tables["shadow2"] = dict(kind="ipk", cols=["a", "OID", "v"])
     db.tables["ucw"] = dict(kind="norowid", cols=["É", "é", "v"], pk=[("é", "", False), ("É", "", False)])
+    db.tables["dk"] = dict(kind="norowid", cols=["a", "b", "c", "d"], pk=[("a", "nocase", False), ("b", "", False), ("a", "", False)])
+    db.indexes["dk_c"] = dict(table="dk", cols=[("c", "", False)])
     db.indexes["mc_part"] = dict(table="Mc", cols=[("val", "", False)], where="n > 3")
     db.indexes["mc_expr"] = dict(table="Mc", cols=[("n + 1", "", False), ("Name", "nocase", False)])
     db.indexes["mc_u"] = dict(table="Mc", cols=[("Name", "nocase", False), ("Id", "", False)])
